@@ -1,7 +1,9 @@
 """C19 — tracers see every attempt begin and complete exactly once."""
 from __future__ import annotations
 
-from ..model import Program
+import ast
+
+from ..model import Program, dotted, norm
 from ..report import Check
 from ..util import short
 from .cfacts import clients, decor_order_facts, traced_facts, tracer_interp
@@ -32,6 +34,42 @@ def run(ck: Check, prog: Program) -> None:
     ck.require('TRACE-CTX', 'trace-context forwarding sites in the client module', n_fw, 8)
     for f_, line, construct, msg in fp:
         ck.finding('TRACE-CTX', f_.qualname, construct, f_.module.rel, line, msg)
+    # "end with the response (nothing for notifications)": whatever the transport handed back, _send returns None for a notification on
+    # every returning path — resolved on the notification test alone, so that a body the server should not have sent is not parsed
+    # into a response (or into an error event) for the tracers
+    from ..cfg import CFG as _CFGn
+    for cr in crs:
+        sf = cr.send_impl
+        ncfg = _CFGn(sf, prog)
+        rq = sf.params[1].arg if len(sf.params) > 1 else 'request'
+        avoid_n = []
+        n_tests = 0
+        for c_ in ncfg.nodes:
+            if c_.kind != 'cond':
+                continue
+            t_, neg_ = c_.ast, False
+            while isinstance(t_, ast.UnaryOp) and isinstance(t_.op, ast.Not):
+                t_, neg_ = t_.operand, not neg_
+            if dotted(t_) == f'{rq}.is_notification':
+                n_tests += 1
+                taken = True != neg_
+                avoid_n += [ed for ed in ncfg.succ[c_.id] if ed.label in ('T', 'F') and (ed.label == 'T') != taken]
+        feas = ncfg.reachable(ncfg.entry, avoid_edges=avoid_n, edge_ok=lambda e: e.label != 'exc')
+        from ..flow import Flow as _FlowN
+        nfl = _FlowN(ncfg)
+        bad_r = []
+        for m_ in ncfg.stmt_nodes():
+            if m_.id in feas and isinstance(m_.ast, ast.Return) and m_.ast.value is not None:
+                # the values the return can hand back on the paths a notification takes (definitions made on other paths do not count)
+                vals_ = [al for al in nfl.alts(m_, m_.ast.value) if al.node is None or al.node.id in feas]
+                if any(not (isinstance(al.expr, ast.Constant) and al.expr.value is None) for al in vals_):
+                    bad_r.append(m_)
+        ck.ob('TRACE-TYPESTATE', f'{cr.cls.name}._send returns nothing for a notification on every returning path', not bad_r and n_tests > 0)
+        for m_ in bad_r:
+            ck.finding('TRACE-TYPESTATE', sf.qualname, f'a notification can complete with `{norm(m_.ast)[:40]}`', sf.module.rel, m_.line,
+                       f'`{norm(m_.ast)}` is reachable for a notification ({rq}.is_notification true): when the transport hands back a body (non-strict '
+                       f'client) the attempt completes with a parsed response — or fails with a decoding error — instead of with nothing, and that is '
+                       f'what every tracer is told')
     for cr in crs:
         half = cr.cls.name
         ck.functions |= {cr.traced_wrapper.qualname, cr.retried_wrapper.qualname, cr.send_impl.qualname}
